@@ -330,7 +330,8 @@ func genClient(t *rapid.T, cfg *Config, o genOpts) Client {
 
 func genErrSpec(t *rapid.T, label string, restSafe bool) *ErrSpec {
 	e := &ErrSpec{Code: int64(rapid.IntRange(1, 16).Draw(t, label+"_code"))}
-	e.Message = genString(t, label+"_msg", 30)
+	// leading/trailing whitespace cannot be carried in an HTTP field value (grpc-message): not generated
+	e.Message = strings.TrimSpace(genString(t, label+"_msg", 30))
 	nd := rapid.IntRange(0, 2).Draw(t, label+"_nd")
 	for i := 0; i < nd; i++ {
 		e.Details = append(e.Details, genDetail(t, label+"_d", restSafe))
@@ -424,7 +425,15 @@ func genScenario(t *rapid.T, o genOpts) *Scenario {
 
 // ---- derived facts about a scenario ---------------------------------------------------
 
-func clientTriple(c *Client) string {
+// effectiveCompression: a body-less REST request declares no compression at all.
+func effectiveCompression(c *Client, enc *encodedRequest) string {
+	if c.Form == FormREST && enc != nil && enc.REST != nil && !enc.REST.HasBody {
+		return ""
+	}
+	return c.Compression
+}
+
+func clientTriple(c *Client, enc *encodedRequest) string {
 	p := formProtocol(c.Form)
 	sub := ""
 	switch c.Form {
@@ -435,7 +444,7 @@ func clientTriple(c *Client) string {
 	case FormConnectStream:
 		sub = "/stream"
 	}
-	return p + sub + "+" + c.Codec + "+" + c.Compression
+	return p + sub + "+" + c.Codec + "+" + effectiveCompression(c, enc)
 }
 
 func anyNonDefault(msgs [][]byte) bool {
